@@ -574,10 +574,16 @@ def toBool (s : St) (v : Nat) : Option (St × Bool) := do
   let d ← desc s v
   if d.len = 0 then pure (s, false)
   else do
-    let s ← cview s v
-    let c ← contentVal s v
-    let a ← cstrVar s v 0
-    pure (s, toBoolL c a)
+    -- `*this == "0"`: length test, then `memcmp` on `data->str` — no C string view is taken for it
+    -- (`equalsIgnoreCase("false")` before it looks only at strings of length 5 and takes the views then;
+    --  that case goes on to `const char* p = *this` below and yields the same state and result)
+    let z ← (if d.len = 1 then (contentVal s v).map (fun c => c == [48]) else some false)
+    if z then pure (s, false)
+    else do
+      let s ← cview s v
+      let c ← contentVal s v
+      let a ← cstrVar s v 0
+      pure (s, toBoolL c a)
 
 def sext (b : Nat) : Nat := if b ≥ 128 then b + (2 ^ 64 - 256) else b
 
